@@ -16,6 +16,8 @@ func init() {
 }
 
 type pairOpts struct {
+	prepared    bool // prepared messages are the point of the scenario
+	prepMore    bool // most data ops are prepared sends
 	minWBuf     int  // smallest write buffer generated (0 = any)
 	noCtlMsgs   bool // no control messages through the message APIs
 	controllers int  // max controllers per end
@@ -34,139 +36,172 @@ func genPair(r *PRNG, tier, prop string, o pairOpts) *Scenario {
 	if slow {
 		big = false
 	}
-	compC, compS := r.Chance(1, 2), r.Chance(1, 2)
-	if r.Chance(1, 2) {
-		compC, compS = true, true
+	nl := o.links
+	if nl <= 0 {
+		nl = 1
 	}
-	cl := &EndCfg{ReadBuf: genBuf(r), WriteBuf: genWBuf(r, o.minWBuf), Compression: compC}
-	sv := &EndCfg{ReadBuf: genBuf(r), WriteBuf: genWBuf(r, o.minWBuf), Compression: compS, Server: r.PickS([]string{"mini", "mini", "nethttp"})}
-	if sv.Server == "mini" {
-		sv.HijackR = r.Pick([]int{0, 0, 16, 64, 300, 4096})
-		sv.HijackW = r.Pick([]int{0, 0, 16, 300, 4096})
-	}
-	for _, e := range []*EndCfg{cl, sv} {
-		if r.Chance(1, 3) {
-			e.Pool = 1
-			if e == sv && cl.Pool != 0 && effW(cl.WriteBuf) != effW(sv.WriteBuf) {
-				e.Pool = 2 // one pool per write buffer size, as the documentation requires
-			}
-		}
-		if r.Chance(1, 3) {
-			e.SetLevel = true
-			e.Level = r.Range(-2, 9)
-		}
-		if r.Chance(1, 6) {
-			e.NoWriteComp = true
-		}
-	}
+	grand := 0
+	var closers []*WOp
 	np := 0
-	if r.Chance(1, 3) {
+	if r.Chance(1, 3) || o.prepared {
 		np = r.Range(1, 2)
 		for i := 0; i < np; i++ {
 			mt := r.Range(1, 2)
-			scn.Prepared = append(scn.Prepared, Prepared{MT: mt, Pay: Payload{Len: genLen(r, 4096, false), Kind: genKind(r, mt), Seed: r.Uint64() >> 1}, Mutate: r.Bool()})
+			pl := genLen(r, 4096, false)
+			if o.prepared && r.Chance(1, 3) {
+				pl = r.Range(4097, 3*4096)
+			}
+			scn.Prepared = append(scn.Prepared, Prepared{MT: mt, Pay: Payload{Len: pl, Kind: genKind(r, mt), Seed: r.Uint64() >> 1}, Mutate: r.Bool()})
+		}
+		if o.prepared && r.Chance(1, 3) {
+			scn.Prepared = append(scn.Prepared, Prepared{MT: 9, Pay: Payload{Len: r.Range(0, 125), Seed: r.Uint64() >> 1}, Mutate: r.Bool()})
+			np++
 		}
 	}
-	// read styles first: a JSON reader needs a JSON writer on the other side
-	styleC := r.PickS([]string{"", "", "", "json", "join", "noabandon"})
-	styleS := r.PickS([]string{"", "", "", "json", "join", "noabandon"})
-	maxMsgs := 12
-	if slow {
-		maxMsgs = 5
-	}
-	prog := func(w int, readerStyle string, isClient bool) []WOp {
-		n := r.Range(1, maxMsgs)
-		var ops []WOp
-		for i := 0; i < n; i++ {
-			op := genWriteOp(r, effW(w), big, np)
-			if slow && op.Pay.Len > 3000 {
-				op.Pay.Len = r.Range(0, 3000)
-				fixChunks(&op)
-			}
-			if readerStyle == "json" {
-				ln := op.Pay.Len
-				if ln > 3000 {
-					ln = r.Range(0, 3000)
+	for li := 0; li < nl; li++ {
+		compC, compS := r.Chance(1, 2), r.Chance(1, 2)
+		if r.Chance(1, 2) {
+			compC, compS = true, true
+		}
+		cl := &EndCfg{ReadBuf: genBuf(r), WriteBuf: genWBuf(r, o.minWBuf), Compression: compC}
+		sv := &EndCfg{ReadBuf: genBuf(r), WriteBuf: genWBuf(r, o.minWBuf), Compression: compS, Server: r.PickS([]string{"mini", "mini", "nethttp"})}
+		if sv.Server == "mini" {
+			sv.HijackR = r.Pick([]int{0, 0, 16, 64, 300, 4096})
+			sv.HijackW = r.Pick([]int{0, 0, 16, 300, 4096})
+		}
+		for _, e := range []*EndCfg{cl, sv} {
+			if r.Chance(1, 3) && li == 0 {
+				e.Pool = 1
+				if e == sv && cl.Pool != 0 && effW(cl.WriteBuf) != effW(sv.WriteBuf) {
+					e.Pool = 2 // one pool per write buffer size, as the documentation requires
 				}
-				op = WOp{Kind: "json", MT: 1, Pay: Payload{Len: ln, Kind: "json", Seed: op.Pay.Seed}}
 			}
-			ops = append(ops, op)
-			if op.End == "implicit" {
-				// an implicitly closed writer must be followed by a message op that closes it
-				nx := genWriteOp(r, effW(w), false, 0)
-				if nx.Kind == "prep" {
-					nx = WOp{Kind: "msg", MT: 2, Pay: Payload{Len: 3, Seed: 9}}
+			if r.Chance(1, 3) {
+				e.SetLevel = true
+				e.Level = r.Range(-2, 9)
+			}
+			if r.Chance(1, 6) {
+				e.NoWriteComp = true
+			}
+		}
+		// read styles first: a JSON reader needs a JSON writer on the other side
+		styleC := r.PickS([]string{"", "", "", "json", "join", "noabandon"})
+		styleS := r.PickS([]string{"", "", "", "json", "join", "noabandon"})
+		maxMsgs := 12
+		if slow {
+			maxMsgs = 5
+		}
+		prog := func(w int, readerStyle string, isClient bool) []WOp {
+			n := r.Range(1, maxMsgs)
+			var ops []WOp
+			for i := 0; i < n; i++ {
+				op := genWriteOp(r, effW(w), big, np)
+				if o.prepMore && np > 0 && r.Chance(1, 2) {
+					op = WOp{Kind: "prep", PM: r.Intn(np)}
 				}
-				nx.End = "close"
+				if op.Kind == "prep" && scn.Prepared[op.PM].MT == 9 && !isClient {
+					op.PM = 0 // pings come from the client side only (see the back-pressure rule of the fault-free class)
+				}
+				if slow && op.Pay.Len > 3000 {
+					op.Pay.Len = r.Range(0, 3000)
+					fixChunks(&op)
+				}
 				if readerStyle == "json" {
-					nx = WOp{Kind: "json", MT: 1, Pay: Payload{Len: 5, Kind: "json", Seed: 77}}
+					ln := op.Pay.Len
+					if ln > 3000 {
+						ln = r.Range(0, 3000)
+					}
+					op = WOp{Kind: "json", MT: 1, Pay: Payload{Len: ln, Kind: "json", Seed: op.Pay.Seed}}
 				}
-				if nx.Kind == "nw" {
+				ops = append(ops, op)
+				if op.End == "implicit" {
+					// an implicitly closed writer must be followed by a message op that closes it
+					nx := genWriteOp(r, effW(w), false, 0)
+					if nx.Kind == "prep" {
+						nx = WOp{Kind: "msg", MT: 2, Pay: Payload{Len: 3, Seed: 9}}
+					}
 					nx.End = "close"
+					if readerStyle == "json" {
+						nx = WOp{Kind: "json", MT: 1, Pay: Payload{Len: 5, Kind: "json", Seed: 77}}
+					}
+					if nx.Kind == "nw" {
+						nx.End = "close"
+					}
+					ops = append(ops, nx)
 				}
-				ops = append(ops, nx)
+				// control traffic from the writer goroutine
+				if r.Chance(1, 4) {
+					ln := r.Pick([]int{0, 1, 50, 100, 124, 125})
+					mt := 10
+					if isClient && r.Bool() {
+						mt = 9
+					}
+					via := r.Intn(3)
+					if o.noCtlMsgs {
+						via = 0
+					}
+					pay := Payload{Len: ln, Seed: r.Uint64() >> 1}
+					switch via {
+					case 0:
+						ops = append(ops, WOp{Kind: "ctl", MT: mt, Pay: pay, DlMs: int64(r.Pick([]int{0, 60000}))})
+					case 1:
+						ops = append(ops, WOp{Kind: "msg", MT: mt, Pay: pay})
+					default:
+						ops = append(ops, WOp{Kind: "nw", MT: mt, Pay: pay, Chunks: genChunks(r, ln), End: "close"})
+					}
+				}
+				if r.Chance(1, 5) {
+					ops = append(ops, WOp{Kind: "ewc", B: r.Bool()})
+				}
+				if r.Chance(1, 6) {
+					ops = append(ops, WOp{Kind: "lvl", Lvl: r.Range(-2, 9)})
+				}
 			}
-			// control traffic from the writer goroutine
-			if r.Chance(1, 4) {
-				ln := r.Pick([]int{0, 1, 50, 100, 124, 125})
+			return ops
+		}
+		cw := prog(cl.WriteBuf, styleS, true)
+		sw := prog(sv.WriteBuf, styleC, false)
+		nctlC, nctlS := 0, 0
+		if o.controllers > 0 {
+			nctlC, nctlS = r.Intn(o.controllers+1), r.Intn(o.controllers+1)
+		}
+		total := 2 + nctlC + nctlS
+		cw = append(cw, WOp{Kind: "barrier", Lvl: total}, WOp{Kind: "ctl", MT: 8, Code: 1000, DlMs: 0})
+		sw = append(sw, WOp{Kind: "barrier", Lvl: 0})
+		ctask := []TaskCfg{{Kind: "writer", W: cw}, {Kind: "reader", R: genReadProg(r, styleC), ExtraReads: r.Pick([]int{0, 2})}}
+		stask := []TaskCfg{{Kind: "writer", W: sw}, {Kind: "reader", R: genReadProg(r, styleS), ExtraReads: r.Pick([]int{0, 2})}}
+		ctlProg := func(isClient bool) []WOp {
+			var ops []WOp
+			n := r.Range(1, 6)
+			for i := 0; i < n; i++ {
 				mt := 10
 				if isClient && r.Bool() {
 					mt = 9
 				}
-				via := r.Intn(3)
-				if o.noCtlMsgs {
-					via = 0
-				}
-				pay := Payload{Len: ln, Seed: r.Uint64() >> 1}
-				switch via {
-				case 0:
-					ops = append(ops, WOp{Kind: "ctl", MT: mt, Pay: pay, DlMs: int64(r.Pick([]int{0, 60000}))})
-				case 1:
-					ops = append(ops, WOp{Kind: "msg", MT: mt, Pay: pay})
-				default:
-					ops = append(ops, WOp{Kind: "nw", MT: mt, Pay: pay, Chunks: genChunks(r, ln), End: "close"})
-				}
+				ops = append(ops, WOp{Kind: "ctl", MT: mt, Pay: Payload{Len: r.Pick([]int{0, 8, 125, r.Range(0, 125)}), Seed: r.Uint64() >> 1}, DlMs: int64(r.Pick([]int{0, 3600000}))})
 			}
-			if r.Chance(1, 5) {
-				ops = append(ops, WOp{Kind: "ewc", B: r.Bool()})
-			}
-			if r.Chance(1, 6) {
-				ops = append(ops, WOp{Kind: "lvl", Lvl: r.Range(-2, 9)})
+			return append(ops, WOp{Kind: "barrier", Lvl: 0})
+		}
+		for i := 0; i < nctlC; i++ {
+			ctask = append(ctask, TaskCfg{Kind: "ctl", W: ctlProg(true)})
+		}
+		for i := 0; i < nctlS; i++ {
+			stask = append(stask, TaskCfg{Kind: "ctl", W: ctlProg(false)})
+		}
+		scn.Links = append(scn.Links, Link{Client: cl, Server: sv, CTasks: ctask, STasks: stask})
+		scn.Net.Conns = append(scn.Net.Conns, ConnCfg{CapAB: capAB, CapBA: capBA})
+		grand += total
+		closers = append(closers, &scn.Links[li].CTasks[0].W[len(cw)-2])
+	}
+	for li := range scn.Links {
+		w := scn.Links[li].CTasks[0].W
+		for k := range w {
+			if w[k].Kind == "barrier" && w[k].Lvl > 0 {
+				w[k].Lvl = grand
 			}
 		}
-		return ops
 	}
-	cw := prog(cl.WriteBuf, styleS, true)
-	sw := prog(sv.WriteBuf, styleC, false)
-	nctlC, nctlS := 0, 0
-	if o.controllers > 0 {
-		nctlC, nctlS = r.Intn(o.controllers+1), r.Intn(o.controllers+1)
-	}
-	total := 2 + nctlC + nctlS
-	cw = append(cw, WOp{Kind: "barrier", Lvl: total}, WOp{Kind: "ctl", MT: 8, Code: 1000, DlMs: 0})
-	sw = append(sw, WOp{Kind: "barrier", Lvl: 0})
-	ctask := []TaskCfg{{Kind: "writer", W: cw}, {Kind: "reader", R: genReadProg(r, styleC), ExtraReads: r.Pick([]int{0, 2})}}
-	stask := []TaskCfg{{Kind: "writer", W: sw}, {Kind: "reader", R: genReadProg(r, styleS), ExtraReads: r.Pick([]int{0, 2})}}
-	ctlProg := func(isClient bool) []WOp {
-		var ops []WOp
-		n := r.Range(1, 6)
-		for i := 0; i < n; i++ {
-			mt := 10
-			if isClient && r.Bool() {
-				mt = 9
-			}
-			ops = append(ops, WOp{Kind: "ctl", MT: mt, Pay: Payload{Len: r.Pick([]int{0, 8, 125, r.Range(0, 125)}), Seed: r.Uint64() >> 1}, DlMs: int64(r.Pick([]int{0, 3600000}))})
-		}
-		return append(ops, WOp{Kind: "barrier", Lvl: 0})
-	}
-	for i := 0; i < nctlC; i++ {
-		ctask = append(ctask, TaskCfg{Kind: "ctl", W: ctlProg(true)})
-	}
-	for i := 0; i < nctlS; i++ {
-		stask = append(stask, TaskCfg{Kind: "ctl", W: ctlProg(false)})
-	}
-	scn.Links = []Link{{Client: cl, Server: sv, CTasks: ctask, STasks: stask}}
-	scn.Net = NetCfg{Conns: []ConnCfg{{CapAB: capAB, CapBA: capBA}}}
+	_ = closers
 	return scn
 }
 
